@@ -157,17 +157,18 @@ def triage(run, rep, variant):
 def random_history(rng):
     mx = rng.choice([0.1, 0.05, 0.3])
     cs = rng.choice([0, 1])
-    t0 = round(rng.uniform(-1, 1), 2)
+    base = rng.choice([0.0, 0.0, 0.0, 5000.0, 86400.0])  # some histories live at times well above 1 s
+    t0 = base + round(rng.uniform(-1, 1), 2)
     ticks = []
     for _ in range(rng.randint(1, 4)):
-        t_out = round(rng.uniform(-1.5, 1.5), 3)
+        t_out = base + round(rng.uniform(-1.5, 1.5), 3)
         control = "u" if (cs or rng.random() < 0.5) else None
         if rng.random() < 0.15 and cs:
             control = None
         if rng.random() < 0.2:
             rs = None
         else:
-            rs = [(round(rng.uniform(-1.5, 1.5), 3), rng.choice(["a", "b"]), rng.random() < 0.5) for _ in range(rng.randint(0, 3))]
+            rs = [(base + round(rng.uniform(-1.5, 1.5), 3), rng.choice(["a", "b"]), rng.random() < 0.5) for _ in range(rng.randint(0, 3))]
         ticks.append((t_out, control, rs))
     return t0, mx, cs, ticks
 
@@ -178,10 +179,12 @@ def native_sweep(run, n):
     for k in range(n):
         mx = rng.choice([0.1, 0.05, 0.3])
         cs = rng.choice([0, 1])
-        t0 = round(rng.uniform(-1, 1), 2)
+        # every fourth history lives around t = 5000 s / 86400 s (times of moderate magnitude well above 1 s)
+        base = (0.0, 0.0, 0.0, 5000.0, 0.0, 0.0, 0.0, 86400.0)[k % 8]
+        t0 = base + round(rng.uniform(-1, 1), 2)
         ticks = []
         for _ in range(rng.randint(1, 4)):
-            t_out = round(rng.uniform(-1.5, 1.5), 3)
+            t_out = base + round(rng.uniform(-1.5, 1.5), 3)
             control = "u" if (cs or rng.random() < 0.5) else None
             if rng.random() < 0.15 and cs:
                 control = None
@@ -189,7 +192,7 @@ def native_sweep(run, n):
             if mode < 0.2:
                 rs = None
             else:
-                rs = [(round(rng.uniform(-1.5, 1.5), 3), rng.choice(["a", "b"]), rng.random() < 0.5) for _ in range(rng.randint(0, 3))]
+                rs = [(base + round(rng.uniform(-1.5, 1.5), 3), rng.choice(["a", "b"]), rng.random() < 0.5) for _ in range(rng.randint(0, 3))]
             ticks.append((t_out, control, rs))
         run.native_runs += 1
         ok, why, calls = native_tick(t0, mx, cs, ticks)
